@@ -24,6 +24,7 @@ import (
 	"sync"
 	"sync/atomic"
 	"testing"
+	"testing/synctest"
 	"time"
 
 	"github.com/basecamp/kamal-proxy/internal/server"
@@ -38,10 +39,56 @@ type c18Scenario struct {
 	ProbeIv   time.Duration `json:"probe_interval"`
 }
 
+// c18Sim runs virtual-time scenarios of other monitors that overlap commands, requests and probe
+// completions in particular ways (racing installs, interleaved snapshots, overlapping commands,
+// flap storms, the placement grid) inside this -race binary. Their own verdicts are discarded
+// here; what counts is whether the race detector reports something (or the process dies).
+func c18Sim(t *testing.T, run *Run, k int) {
+	scratch := NewScratchRun(t, run.Seed, run.Tier)
+	switch k % 6 {
+	case 0:
+		sc := c05Gen(scratch.Rand(4*k+3), 4*k+3)
+		synctest.Test(t, func(t *testing.T) { c05Run(t, scratch, sc, scratch.Rand(k)) })
+	case 1:
+		sc := c12Gen(scratch.Rand(4*k+3), 4*k+3, 1<<30, 0, 0)
+		synctest.Test(t, func(t *testing.T) { c12Sim(t, scratch, sc) })
+	case 2:
+		sc := c17Gen(scratch.Rand(k), k, true)
+		synctest.Test(t, func(t *testing.T) { c17Run(t, scratch, sc) })
+	case 3:
+		sc := c06Gen(scratch.Rand(k), len(c06Classes)*k+len(c06Classes)-1)
+		synctest.Test(t, func(t *testing.T) { c06Run(t, scratch, sc, scratch.Rand(k+1)) })
+	case 4:
+		sc := c09Gen(scratch.Rand(10*k+9), 10*k+9)
+		sc.Horizon = 30
+		var bs []c09Burst
+		for _, b := range sc.Bursts {
+			if b.K < sc.Horizon {
+				bs = append(bs, b)
+			}
+		}
+		sc.Bursts = bs
+		synctest.Test(t, func(t *testing.T) { c09Run(t, scratch, sc) })
+	case 5:
+		sc := c02Gen(scratch.Rand(k), 4+k, false)
+		synctest.Test(t, func(t *testing.T) { c02Run(t, scratch, sc) })
+	}
+	run.Count("sim_scenarios_under_race", 1)
+	run.Class(fmt.Sprintf("sim-under-race|kind=%d", k%6))
+}
+
 func TestC18(t *testing.T) {
 	run := NewRun(t, "C18")
 	defer run.Finish()
 	n := run.N(16, 200)
+	nsim := run.N(12, 240)
+	for k := 0; k < nsim; k++ {
+		if !run.Mine(n+k, map[string]any{"part": "sim-under-race", "k": k}) {
+			continue
+		}
+		run.Eval()
+		c18Sim(t, run, k)
+	}
 	for i := 0; i < n; i++ {
 		rng := run.Rand(i)
 		sc := c18Scenario{Idx: i, Clients: 16 + rng.IntN(40), Operators: 3 + rng.IntN(4), Targets: 6 + rng.IntN(7), Duration: 2500 * time.Millisecond, ProbeIv: time.Duration(5+rng.IntN(16)) * time.Millisecond}
@@ -102,6 +149,7 @@ var c18Once sync.Once
 
 func c18Run(t *testing.T, run *Run, sc c18Scenario, rng *rand.Rand) {
 	run.Eval()
+	RestoreHTTPDefaults() // a virtual-time world may have run in this process before
 	dir, err := os.MkdirTemp("", "vh-c18-")
 	if err != nil {
 		run.Inconclusive("tempdir: %v", err)
